@@ -1,6 +1,7 @@
 import LenaModel.DriverUtil
 import LenaModel.Model.Val
 import LenaModel.Model.C07
+import LenaModel.Model.C07Tok
 /-! Model driver for C07.  Values: a leaf is an integer (the class of the Python leaf under `==`),
 a dictionary is the array of its slots over the case's sorted key alphabet, `null` = key absent.
 Requests (`n` = size of the alphabet, `falsy` = leaf classes that are false in boolean context):
@@ -14,7 +15,10 @@ Requests (`n` = size of the alphabet, `falsy` = leaf classes that are false in b
   {"op":"contained","level":l,"a":D,"b":D}         -> {"r":b}
   {"op":"assoc","n":n,"level":l,"a":D,"b":D,"c":D} -> {"abc":D,"ab_c":D,"a_bc":D,"perms":[D x 6],"fold2":D}
   {"op":"paths","d":D,"o":D,"paths":[[k,..],..]}   -> {"r":[{"u":b,"gd":{"v":V}|null,"gu":{"v":V}|null,"go":…}, …]}
-      (u = untouchedL o p, gd = getPath d p, gu = getPath (updL d o) p, go = getPath o p) -/
+      (u = untouchedL o p, gd = getPath d p, gu = getPath (updL d o) p, go = getPath o p)
+  {"op":"tok","n":n,"a":T,"b":D,"c":c,"levels":[..],"falsy":[..]} -> {"r":[{"inter":T,"diff":T}, … per level]}
+      token model: T = {"t":id,"s":[T|null,…]} (dictionary object) | {"l":class,"t":[ids]} (leaf and the mutable
+      objects it consists of); `c` = first unused identity; identities >= c in the reply (new objects) are written -1 -/
 open Lean Lena Lena.Drv Lena.Val Lena.C07
 
 partial def toVal (j : Json) : Option (Val Int) :=
@@ -49,6 +53,31 @@ def ofOptVal : Option (Val Int) → Json
 def natList? (j : Json) : Option (List Nat) := do
   let a ← arr? j
   a.toList.mapM nat?
+
+partial def toTVal (j : Json) : Option (TVal Int) :=
+  match arr? (getD j "s") with
+  | some a => do
+    let t ← nat? (getD j "t")
+    let slots ← a.toList.mapM (fun x => if x.isNull then some none else (toTVal x).map some)
+    some (.dict t slots)
+  | none => do
+    let cls ← int? (getD j "l")
+    let ts ← natList? (getD j "t")
+    some (.leaf ts cls)
+
+partial def ofTVal (c0 : Nat) : TVal Int → Json
+  | .leaf ts a => Json.mkObj [("l", ofInt a), ("t", Json.arr (ts.map (norm c0)).toArray)]
+  | .dict t l => Json.mkObj [("t", norm c0 t),
+      ("s", Json.arr (l.map (fun | none => Json.null | some v => ofTVal c0 v)).toArray)]
+where norm (c0 t : Nat) : Json := if t ≥ c0 then ofInt (-1) else ofNat t
+
+def tokAt (truthy : Int → Bool) (n c : Nat) (a : TVal Int) (b : Slots Int) (lv : Int) : Json :=
+  let d0 := match a with
+    | .dict t l => some (t, l)
+    | .leaf _ _ => none
+  Json.mkObj [
+    ("inter", ofTVal c (interT n lv c d0 [b]).1),
+    ("diff", ofTVal c (diffTV truthy lv a (.dict b) c).1)]
 
 def pathAt (d o : Slots Int) (p : List Nat) : Json :=
   Json.mkObj [
@@ -124,6 +153,13 @@ def handle (j : Json) : Json :=
                                ofDict (i [b, c, a]), ofDict (i [c, a, b]), ofDict (i [c, b, a])])]
       else err "assoc: not well-formed"
     | _, _, _, _, _ => err "bad assoc args"
+  | some "tok" =>
+    match nat? (getD j "n"), nat? (getD j "c"), toTVal (getD j "a"), toDict (getD j "b"), intList? (getD j "levels") with
+    | some n, some c, some a, some b, some lvs =>
+      if wfB n (eraseV a) && wfB n (.dict b) && (eraseV a).isDict then
+        Json.mkObj [("r", Json.arr (lvs.map (tokAt (truthyOf j) n c a b)).toArray)]
+      else err "tok: not well-formed"
+    | _, _, _, _, _ => err "bad tok args"
   | some "paths" =>
     match toDict (getD j "d"), toDict (getD j "o"), (arr? (getD j "paths")).bind (fun a => a.toList.mapM natList?) with
     | some d, some o, some ps => Json.mkObj [("r", Json.arr (ps.map (pathAt d o)).toArray)]
